@@ -1375,7 +1375,11 @@ func runC19(r *Rng, n int) {
 				res := c19Task(t.p, keep, t.cfg, R, true)
 				if !res.ok && res.invalid == "" {
 					failMu.Lock()
-					failed = append(failed, task{t.p, t.cfg})
+					if rb, _ := res.detail["run_b"].(string); strings.HasPrefix(rb, "in-process") {
+						failed = append(failed, task{t.p, t.cfg}) // all separate processes agreed: shrink last
+					} else {
+						failed = append([]task{{t.p, t.cfg}}, failed...)
+					}
 					failMu.Unlock()
 				}
 				c19Report(t.p, keep, t.cfg, res)
